@@ -16,7 +16,7 @@ pub fn info() -> PropInfo {
     PropInfo {
         id: "C01",
         level: "exploration",
-        rule: "seeded grammar-aware generator: projects of 1-3 .txtpp sources (name shapes foo.ext.txtpp / foo.txtpp / foo.txtpp.ext, dotted stems, a non-ASCII name) in 4 directories plus static include targets; each source a random sequence of text lines (incl. directive look-alikes) and the seven directives in single/multi-line forms with 7 prefixes x 5 indentations x 3 continuation forms, LF/CRLF/mixed endings, with/without final newline, includes of static files / dependency outputs / temp files, tags created-stored-used across directive kinds, rationed error cases; built in-process with Build or InMemoryBuild, both trailing-newline settings, 1-4 threads. Non-trivial = inside the model's domain and at least one directive evaluated; distinct = distinct (files, options) hash. The model's coverage tuples (item kind x form x output newline state x EOF x owed-newline x tag state x indentation x line ending) are counted as evidence of state-machine coverage.",
+        rule: "seeded grammar-aware generator: projects of 1-3 .txtpp sources (name shapes foo.ext.txtpp / foo.txtpp / foo.txtpp.ext, dotted stems, a non-ASCII name) in 4 directories plus static include targets; each source a random sequence of text lines (incl. directive look-alikes) and the seven directives in single/multi-line forms with 7 prefixes x 5 indentations x 3 continuation forms, LF/CRLF/mixed endings, with/without final newline, includes of static files / dependency outputs / temp files, tags created-stored-used across directive kinds, rationed error cases; built in-process with Build or InMemoryBuild, both trailing-newline settings, 1-4 threads. Non-trivial = inside the model's domain and at least one directive evaluated; distinct = distinct (files, options) hash. The model's coverage tuples (item kind x form x output newline state x EOF x owed-newline x tag state x indentation x line ending) are counted as evidence of state-machine coverage. Later additions to the generator: first lines of 8180-20000 bytes, temp targets named like a staging copy of the source's own output, the same temp target written twice with different bodies and read after each, 100 KB command outputs, commands killed by a signal, quoted multi-line commands.",
         assumptions: &[
             "reference model harness/src/model.rs is a faithful reading of README/CHANGELOG inside the domain DESIGN §4.3 (D1-D13); cases outside are executed but not judged",
             "commands restricted to the D7 vocabulary, /bin/sh and coreutils behave as usual",
